@@ -92,7 +92,7 @@ func OpenDir(baseDir string) (*Bundle, error) {
 		}
 		ret.remotePackageDirs[pkgAddr] = localDir
 
-		if rpm.Meta.GitCommitID != "" {
+		if rpm.Meta.GitCommitID != "" || rpm.Meta.GitCommitMessage != "" {
 			ret.remotePackageMeta[pkgAddr] = PackageMetaWithGitMetadata(
 				rpm.Meta.GitCommitID,
 				rpm.Meta.GitCommitMessage,
